@@ -7,6 +7,7 @@ package main
 // store that is opened again watches the adapter's cached topic object.
 
 import (
+	"sync/atomic"
 	"context"
 	"io"
 	"sync"
@@ -55,11 +56,19 @@ func (s *simCorePS) Publish(ctx context.Context, topic string, data []byte) erro
 }
 
 type simSub struct {
-	ch   chan *iface.EventPubSubMessage
-	from peer.ID
+	ch     chan *iface.EventPubSubMessage
+	from   peer.ID
+	net    *SimNet
+	closed int32
 }
 
-func (s *simSub) Close() error { return nil }
+// Close: the node's subscription ends only here (kubo does not bind it to the context of Subscribe)
+func (s *simSub) Close() error {
+	if atomic.CompareAndSwapInt32(&s.closed, 0, 1) {
+		atomic.AddInt32(&s.net.openSubs, -1)
+	}
+	return nil
+}
 func (s *simSub) Next(ctx context.Context) (coreiface.PubSubMessage, error) {
 	select {
 	case m, ok := <-s.ch:
@@ -86,7 +95,8 @@ func (s *simCorePS) Subscribe(ctx context.Context, topic string, opts ...options
 	t.msgs = append(t.msgs, ch)
 	t.mu.Unlock()
 	// whatever the script delivers comes from "somebody else" (the adapter drops the node's own messages)
-	return &simSub{ch: ch, from: n.ids[(s.p+1)%len(n.ids)]}, nil
+	atomic.AddInt32(&n.openSubs, 1)
+	return &simSub{ch: ch, from: n.ids[(s.p+1)%len(n.ids)], net: n}, nil
 }
 
 type apiWithPS struct {
